@@ -79,7 +79,7 @@ def run(ctx, res):
             ex += R.exhaustive_cases(4, 2)[len(R.exhaustive_cases(3, 2)):]
         # 2. random profiles, 2-6 candidates, 1-60 ballots
         rnd = [R.gen_case(rng) for _ in range(ctx.n(3200, 12000))]
-    R.BUDGET["left"] = ctx.n(150, 2400)      # seconds of implementation time for the whole check
+    R.BUDGET["left"] = ctx.n(450, 3600)      # seconds of implementation time for the whole check
     rp = R.replay_cases(ctx)
     if rp:                      # --replay: only the recorded case(s), re-run on the current implementation
         ex, rnd = [], rp
